@@ -300,6 +300,10 @@ theorem stream_payloads {M : Type} (de : List UInt8 → Option M) (sl rl : Int) 
   rw [this]
   exact ⟨by simpa [run] using delivered_payloadEvents de _, by simpa [run] using written_payloadEvents de _, rfl⟩
 
+/-- non-vacuity: a payload that does not deserialise (odd length here) between two that do -/
+example : delivered (decodeStream (M := Nat) (fun p => if p.length % 2 = 0 then some p.length else none) 512
+    (([[1, 2], [3], [4, 5, 6, 7], [8, 9, 10]].filterMap (frame 3)).flatten)).1 = [2] := by decide
+
 /-- The reader is a function of the concatenation of what it reads: however the stream is cut
     into chunks, events and final state are the same. -/
 theorem chunking {M : Type} (de : List UInt8 → Option M) (rl : Int) (s : RState)
@@ -309,6 +313,9 @@ theorem chunking {M : Type} (de : List UInt8 → Option M) (rl : Int) (s : RStat
   | nil => rfl
   | cons c cs ih =>
     rw [List.flatten_cons, run_append, runChunks, ih]
+
+example : runChunks (M := List UInt8) some 512 .hdr0 [[0], [0, 0], [], [2, 0x41], [0x42, 1, 0]] =
+    ([.deliver [0x41, 0x42]], .hdr2 1 0) := by decide
 
 theorem decode_append {M : Type} (de : List UInt8 → Option M) (rl : Int) (s : RState)
     (a b : List UInt8) :
@@ -424,6 +431,9 @@ theorem ping_truncated {M : Type} (de : List UInt8 → Option M) (rl : Int) (h0 
   rw [written_map_wrote]
   rfl
 
+example : decodeStream (M := List UInt8) some 512 [0x09, 0, 0, 5, 0xAA, 0xBB] =
+    ([.wrote [2, 0, 0, 5], .wrote [0xAA], .wrote [0xBB]], .echo 2) := by decide
+
 /-- A PONG frame is read and dropped. -/
 theorem pong_ignored {M : Type} (de : List UInt8 → Option M) (rl : Int) (h0 l0 l1 l2 : UInt8)
     (p rest : List UInt8) (ht : h0.toNat % 8 = 2)
@@ -432,6 +442,9 @@ theorem pong_ignored {M : Type} (de : List UInt8 → Option M) (rl : Int) (h0 l0
   have hk : Gen.readerCase (Gen.frameType h0) = .pong := by
     rw [readerCase_frameType, if_neg (by omega), if_neg (by omega), if_pos ht]
   exact run_pong_frame de rl h0 l0 l1 l2 p rest hk hn hle
+
+example : decodeStream (M := List UInt8) some 512 [0x02, 0, 0, 2, 0xAA, 0xBB, 0, 0, 0, 1, 0x41] =
+    ([.deliver [0x41]], .hdr0) := by decide
 
 /-! ## two goroutines write to one connection -/
 
@@ -467,6 +480,9 @@ theorem sender_alone_never_interleaves {M : Type} (de : List UInt8 → Option M)
   rw [wire_senderCalls]
   exact ⟨rfl, (stream_payloads de sl rl hsl payloads).1⟩
 
+/-- the PONG used in the examples: header 02 00 00 02, payload in one chunk -/
+def f18PongUnit : Pong := ⟨0, 0, 2, [[0x50, 0x50]]⟩
+
 /-- If whole frames were the atomic unit (a lock held around the two writes of the sender
     and around the reader's PONG), every interleaving would be harmless: the other side gets
     exactly the messages that fit, in order, and skips the PONGs. -/
@@ -495,6 +511,16 @@ theorem locked_writers_ok {M : Type} (de : List UInt8 → Option M) (sl rl : Int
     obtain ⟨q, _, rfl⟩ := List.mem_map.mp hb
     rfl
 
+/-- non-vacuity: message, PONG, message as whole units -/
+example : Merge (([[0x41], [0x42]].filter (fits 512)).map WUnit.msg) ([f18PongUnit].map WUnit.pong)
+    [.msg [0x41], .pong f18PongUnit, .msg [0x42]] := by
+  have : ([[0x41], [0x42]].filter (fits 512)) = [[0x41], [0x42]] := by decide
+  rw [this]
+  exact .left (.right (.left .nil))
+example : decodeStream (M := List UInt8) some 512
+    ([WUnit.msg [0x41], .pong f18PongUnit, .msg [0x42]].flatMap (WUnit.bytes 512)) =
+    ([.deliver [0x41], .deliver [0x42]], .hdr0) := by decide
+
 /-- The full statement one would like: whatever the scheduling of the two goroutines' write
     calls, the other side receives the sender's messages intact and in order. -/
 def no_interleaving_full : Prop :=
@@ -521,6 +547,12 @@ theorem f18_log_is_a_schedule : Merge (senderCalls 512 [f18Payload]) (readerCall
 theorem f18_corrupts :
     decodeStream (M := List UInt8) some 512 (wire f18Log) =
       ([.deliver [2, 0, 0, 2, 0x50, 0x50, 0x41, 0x41]], .closed .oversize) := by decide
+
+/-- non-vacuity of `sender_alone_never_interleaves`: the sender's calls alone are a log -/
+example : Merge (senderCalls 512 [f18Payload]) [] (senderCalls 512 [f18Payload]) := by
+  have hs : senderCalls 512 [f18Payload] = [⟨.sender, [0, 0, 0, 8]⟩, ⟨.sender, f18Payload⟩] := by decide
+  rw [hs]
+  exact .left (.left .nil)
 
 /-- FINDING F18: the full statement is false of the model (which mirrors the code: no lock
     around the writes): the schedule above delivers a corrupted message. -/
